@@ -335,6 +335,127 @@ def flatten_sync(ir, fn):
     return out
 
 
+def _flat(stmts):
+    for st in stmts:
+        if st[0] == 'block':
+            for x in _flat(st[1]):
+                yield x
+        else:
+            yield st
+
+
+def _texts(st):
+    """every condition / simple statement text inside a parsed statement"""
+    if st is None:
+        return
+    if st[0] in ('simple', 'return'):
+        yield st[1]
+    elif st[0] == 'block':
+        for x in st[1]:
+            for y in _texts(x):
+                yield y
+    elif st[0] in ('if', 'while'):
+        yield st[1]
+        for x in st[2:]:
+            for y in _texts(x):
+                yield y
+
+
+RESET_PROTO = re.compile(r'lock|Lock|mutex|Mutex|m_worker|m_pendingCount|postEvent|sendEvent|process\s*\(|quit\s*\(|exit\s*\(|invokeMethod')
+
+
+def reset_program(oh):
+    """resetOwnThread(): the ORDER of its three significant actions — RDrain (the loop that releases M while something is
+    pending), RQuit (m_thread->quit()), RClear (m_worker = nullptr) — under ONE QMutexLocker taken first and released only
+    inside the drain loop / at the end.  Anything else that touches the protocol raises AnchorError."""
+    fn = 'OwnThreadHandler::resetOwnThread'
+    m = need(re.search(r'\bvoid\s+resetOwnThread\s*\(', oh), fn)
+    blk = parse_function(oh[m.start():], 'resetOwnThread')
+    stmts = list(_flat(blk[1]))
+    need(stmts and stmts[0][0] == 'simple', fn + ': first statement')
+    m0 = need(re.match(r'^QMutexLocker(?:<[^>]*>)? (\w+)\s*[({]\s*&m_mutex\s*[)}]$', stmts[0][1]),
+              fn + ': takes the handler mutex (QMutexLocker on &m_mutex) first')
+    lk = m0.group(1)
+    prog = []
+
+    def guard_return(st):      # `if (!m_thread) return;` — leaves with the locker released by its scope
+        return st[0] == 'if' and st[3] is None and st[1].replace(' ', '') in ('!m_thread', 'm_thread==nullptr', 'm_thread.isNull()') \
+            and st[2][0] in ('return', 'block') and all(x[0] == 'return' for x in _flat([st[2]]))
+
+    for st in stmts[1:]:
+        kind = st[0]
+        if guard_return(st):
+            continue
+        if kind == 'while':
+            cond = st[1].replace(' ', '')
+            need(re.match(r'^m_pendingCount(\.loadAcquire\(\)|\.loadRelaxed\(\)|\.load\(\))?(>0|!=0)$', cond),
+                 fn + ': loop other than `while (m_pendingCount > 0)`: `%s`' % st[1])
+            seq = []
+            for b in _flat([st[2]]):
+                if guard_return(b):
+                    continue
+                need(b[0] == 'simple', fn + ': unsupported statement in the drain loop')
+                t = b[1]
+                if t == lk + '.unlock()':
+                    seq.append('u')
+                elif t == lk + '.relock()':
+                    seq.append('r')
+                elif re.match(r'^QTLOGGER_VERIF_POINT\(', t) or re.match(r'^(QThread::)?(msleep|usleep|sleep|yieldCurrentThread)\(', t):
+                    continue
+                else:
+                    raise AnchorError('ANCHOR NOT FOUND: %s: unrecognised statement in the drain loop: `%s`' % (fn, t[:120]))
+            need(seq == ['u', 'r'], fn + ': the drain loop releases and re-takes the mutex exactly once per round')
+            prog.append('RDrain')
+            continue
+        if kind == 'if':
+            txt = ' ; '.join(_texts(st))
+            # `if (!m_thread->wait(3000)) { terminate(); wait(); }` belongs to the quit step
+            if re.search(r'm_thread->wait\(', st[1]) and not RESET_PROTO.search(re.sub(r'm_thread->(wait|terminate)\(', '', txt)):
+                continue
+            if RESET_PROTO.search(txt):
+                raise AnchorError('ANCHOR NOT FOUND: %s: protocol operation under a condition: `%s`' % (fn, st[1][:120]))
+            continue
+        need(kind == 'simple', fn + ': unsupported statement kind ' + kind)
+        t = st[1]
+        if re.match(r'^m_thread->(quit|exit)\(\s*\d*\s*\)$', t):
+            prog.append('RQuit')
+        elif re.match(r'^m_worker\s*=\s*(nullptr|NULL|0)$', t):
+            prog.append('RClear')
+        elif re.match(r'^QTLOGGER_VERIF_POINT\(', t) or re.match(r'^QObject::disconnect\(m_aboutToQuitConnection\)$', t) \
+                or re.match(r'^m_thread(\.clear\(\)|\s*=\s*nullptr)$', t) or re.match(r'^m_thread->(wait|terminate)\(', t):
+            continue
+        elif t.startswith(lk + '.'):
+            raise AnchorError('ANCHOR NOT FOUND: %s: the mutex is released/re-taken outside the drain loop: `%s`' % (fn, t))
+        elif RESET_PROTO.search(t):
+            raise AnchorError('ANCHOR NOT FOUND: %s: unrecognised statement touching the protocol: `%s`' % (fn, t[:120]))
+    return prog
+
+
+def signal_facts():
+    """SignalSink / sendToSignal anchors of the signal model (ConcSigDefs.v):
+    emits_in_send:  SignalSink::send() is the emission itself (in the calling thread, hence inside the pipeline's
+                    critical section) — nothing deferred, nothing conditional;
+    autoconnect:    sendToSignal() connects message(QtLogger::LogMessage) with the string-based default (Auto) connection;
+    registered:     the argument type is registered under the name the string-based connection looks up, on a path every
+                    pipeline takes before it can emit (the constructor of OwnThreadHandler / SignalSink, or sendToSignal)"""
+    ss = strip_comments(rd('sinks/signalsink.cpp'))
+    sp = strip_comments(rd('simplepipeline.cpp'))
+    oh = strip_comments(rd('ownthreadhandler.h'))
+    body = re.sub(r'\s+', ' ', fn_body(ss, 'SignalSink::send')).strip()
+    emits = bool(re.match(r'^(Q_EMIT|emit)? ?message\(\s*\w+\s*\);$', body))
+    cbody = re.sub(r'\s+', ' ', fn_body(sp, 'SimplePipeline::sendToSignal'))
+    auto = bool(re.search(r'QObject::connect\(\s*sink\.data\(\)\s*,\s*SIGNAL\(message\(QtLogger::LogMessage\)\)\s*,\s*receiver\s*,\s*method\s*\)', cbody))
+    reg = r'qRegisterMetaType<\s*(QtLogger::)?LogMessage\s*>\(\s*"QtLogger::LogMessage"\s*\)'
+    registered = bool(re.search(reg, cbody))
+    m = re.search(r'\bOwnThreadHandler\s*\(\s*Args\s*&&', oh)
+    if m and re.search(reg, fn_body(oh[m.start():], 'OwnThreadHandler')):
+        registered = True
+    m = re.search(r'SignalSink::SignalSink\s*\(', ss)
+    if m and re.search(reg, fn_body(ss[m.start():], 'SignalSink::SignalSink')):
+        registered = True
+    return emits, auto, registered
+
+
 def coq_instr(x):
     return {'Lock': 'Lock %s', 'Unlock': 'Unlock %s'}[x[0]] % x[1] if x[0] in ('Lock', 'Unlock') else x[0]
 
@@ -358,8 +479,10 @@ def generate():
     need(all(x[0] != 'Call' for x in hp), 'OwnThreadHandler::process: no further virtual call')
     need(sum(1 for x in pm if x[0] in ('Call', 'Work')) == 1, 'Logger::processMessage: exactly one pipeline run')
     need(sum(1 for x in pmf if x[0] in ('Call', 'Work')) == 1, 'Logger::processMessage (fatal path): exactly one pipeline run')
-    out = HDR % 'src/qtlogger/logger.cpp, ownthreadhandler.h'
-    out += 'Require Import List.\nImport ListNotations.\nRequire Import QtlVerif.ConcDefs.\n'
+    rprog = reset_program(oh)
+    emits, auto, registered = signal_facts()
+    out = HDR % 'src/qtlogger/logger.cpp, ownthreadhandler.h, sinks/signalsink.cpp, simplepipeline.cpp'
+    out += 'Require Import List.\nImport ListNotations.\nRequire Import QtlVerif.ConcDefs QtlVerif.ConcResetDefs.\n'
     out += '(* Logger::processMessage; LCall = the virtual call process(lmsg) *)\n'
     out += 'Definition src_process_message : list linstr :=\n  [%s].\n' % '; '.join(
         'LCall' if x[0] == 'Call' else 'LI (%s)' % coq_instr(x) if x[0] in ('Lock', 'Unlock') else 'LI ' + coq_instr(x) for x in pm)
@@ -378,4 +501,12 @@ def generate():
     out += '(* the entry points the threads of one run may use on an installed synchronous Logger: Qt macros, a direct call of\n'
     out += '   the public process(), Qt macros at fatal level *)\n'
     out += 'Definition src_entry_points : list (list instr) := [src_logger_sk; src_handler_sk; src_logger_fatal_sk].\n'
+    out += '(* OwnThreadHandler::resetOwnThread(): the order of its significant actions under the handler mutex (RDrain = the loop\n'
+    out += '   that releases the mutex while m_pendingCount > 0, RQuit = m_thread->quit(), RClear = m_worker = nullptr) *)\n'
+    out += 'Definition src_reset_prog : list rinstr := [%s].\n' % '; '.join(rprog)
+    out += '(* SignalSink::send() is the emission itself; sendToSignal() makes the string-based default (Auto) connection; the\n'
+    out += '   argument type is registered by name on a path every pipeline takes before it can emit *)\n'
+    out += 'Definition src_signal_emits_in_send : bool := %s.\n' % ('true' if emits else 'false')
+    out += 'Definition src_signal_autoconnect : bool := %s.\n' % ('true' if auto else 'false')
+    out += 'Definition src_signal_type_registered : bool := %s.\n' % ('true' if registered else 'false')
     return {'SrcConc.v': out}
